@@ -108,6 +108,24 @@ def symbolic_set_elements_and_union_keys(b):
   })
 
 
+def set_algebra(xs, ys):
+  a, b_ = set(xs), set(ys)
+  return (a - b_, a | b_, a & b_, a ^ b_, len(a - b_))
+
+
+@unit(P, target="contracts.self_engine:set_algebra")
+def set_operators_are_modelled(b):
+  """2026-09-25: `set - set` was not modelled and fell through to a TypeError attributed to the program"""
+  k = b.int("k", 0, 5)
+  return Case(set_algebra, [[1, 2, k], [2, 3]], raises={}, ensures={
+    "ok_difference": lambda res: res[4] == (1 if (k == 1 or k == 2 or k == 3) else 2),
+    "bad_difference_is_always_two": lambda res: res[4] == 2,
+    "ok_one_stays": lambda res: 1 in res[0] and 2 not in res[0] and 2 in res[2] and 1 not in res[2],
+    "ok_union_has_all": lambda res: 1 in res[1] and 2 in res[1] and 3 in res[1] and k in res[1],
+    "bad_symmetric_difference_never_has_three": lambda res: 3 not in res[3],
+  })
+
+
 class Cb(object):
   def m(self):
     return 1
